@@ -112,7 +112,13 @@ Fixpoint go (fuel : nat) (m : mode) (ts : list tok) : option (expr * list tok) :
           end
       | MPost e =>
           match ts with
-          | TDot :: TFld n :: r => go f (MPost (Field e n)) r
+          | TDot :: TFld n :: r =>
+              (* parse_optional_type_arguments: a `<` right after the field name opens explicit type
+                 arguments; on expression tokens that is a syntax error *)
+              match r with
+              | TOp Lt :: _ => None
+              | _ => go f (MPost (Field e n)) r
+              end
           | LP :: r =>
               match go f (MLevel 0) r with
               | Some (a, RP :: r') => go f (MPost (Call e a)) r'
@@ -165,8 +171,21 @@ Fixpoint gp (dec : expr -> side -> bool) (e : expr) : list tok :=
   | Lam x b => LP :: TId x :: RP :: TArrow :: wrap (dec e SBody) (gp dec b)
   end.
 
-(* the parentheses the grammar needs *)
-Definition need (parent : expr) (s : side) : bool :=
+(* does the printed form of e end with a field name (so that a following `<` would be read as the
+   start of type arguments)? *)
+Fixpoint ends_field (dec : expr -> side -> bool) (e : expr) : bool :=
+  match e with
+  | Field _ _ => true
+  | Bin _ _ b => negb (dec e SRight) && ends_field dec b
+  | Un _ a => negb (dec e SArg) && ends_field dec a
+  | Lam _ b => negb (dec e SBody) && ends_field dec b
+  | _ => false
+  end.
+
+Definition is_lt (o : bop) : bool := match o with Lt => true | _ => false end.
+
+(* the parentheses the grammar needs: by level ... *)
+Definition need_level (parent : expr) (s : side) : bool :=
   match parent, s with
   | Field a _, SBase | Call a _, SBase => level_of a <? 8
   | Un _ a, SArg => level_of a <? 8
@@ -174,9 +193,31 @@ Definition need (parent : expr) (s : side) : bool :=
   | Bin o _ b, SRight => level_of b <? S (plevel o)
   | _, _ => false
   end.
+(* ... and around a left operand of `<` that would otherwise end with a field name *)
+Definition need_lt (dec : expr -> side -> bool) (parent : expr) (s : side) : bool :=
+  match parent, s with
+  | Bin o a _, SLeft => is_lt o && ends_field dec a
+  | _, _ => false
+  end.
+Definition need (dec : expr -> side -> bool) (parent : expr) (s : side) : bool :=
+  need_level parent s || need_lt dec parent s.
 
 (* the reference ("minimal parenthesis") printer *)
-Definition pr (e : expr) : list tok := gp need e.
+Fixpoint ends_ref (e : expr) : bool :=
+  match e with
+  | Field _ _ => true
+  | Bin o _ b => negb (level_of b <? S (plevel o)) && ends_ref b
+  | Un _ a => negb (level_of a <? 8) && ends_ref a
+  | Lam _ b => ends_ref b
+  | _ => false
+  end.
+Definition dec_ref (parent : expr) (s : side) : bool :=
+  need_level parent s ||
+  match parent, s with
+  | Bin o a _, SLeft => is_lt o && ends_ref a
+  | _, _ => false
+  end.
+Definition pr (e : expr) : list tok := gp dec_ref e.
 
 (* ---- the implementation's decisions *)
 Definition pprec (e : expr) : nat :=
@@ -212,7 +253,7 @@ Definition impl (e : expr) : list tok := gp dec_impl e.
 Definition sides : list side := [SBase; SArg; SLeft; SRight; SBody].
 
 Definition suff_node (dec : expr -> side -> bool) (e : expr) : bool :=
-  forallb (fun s => implb (need e s) (dec e s)) sides.
+  forallb (fun s => implb (need dec e s) (dec e s)) sides.
 
 Fixpoint all_nodes (P : expr -> bool) (e : expr) : bool :=
   P e &&
@@ -227,7 +268,7 @@ Definition suff (dec : expr -> side -> bool) (e : expr) : bool := all_nodes (suf
 
 (* exact agreement of the decisions (then impl e = pr e) *)
 Definition agree_node (e : expr) : bool :=
-  forallb (fun s => Bool.eqb (need e s) (dec_impl e s)) sides.
+  forallb (fun s => Bool.eqb (dec_ref e s) (dec_impl e s)) sides.
 Definition agree (e : expr) : bool := all_nodes agree_node e.
 
 (* the implementation omits no needed parenthesis *)
@@ -261,7 +302,15 @@ Definition k3 (e : expr) : bool :=
   | _ => false
   end.
 
-Definition known_node (e : expr) : bool := k1 e || k2 e || k3 e.
+(* K6: the left operand of `<` is printed without parentheses and ends with a field name:
+   (a.b) < c -> a.b < c, where the parser reads `<` as the start of type arguments *)
+Definition k6 (e : expr) : bool :=
+  match e with
+  | Bin Lt a _ => negb (dec_impl e SLeft) && ends_field dec_impl a
+  | _ => false
+  end.
+
+Definition known_node (e : expr) : bool := k1 e || k2 e || k3 e || k6 e.
 
 Fixpoint any_node (P : expr -> bool) (e : expr) : bool :=
   P e ||
